@@ -201,6 +201,8 @@ def gen_scenario(rng, prof=None, force_selflock=None):
     all_int_J = rng.random() < p.get('p_int_inertias', 0.08)
     for _ in range(20):
         spec['chain'] = gen_chain(rng, p, force_selflock)
+        if p.get('heavy_output'):
+            spec['chain'][-1]['J'] = Q('InertiaMoment', spec['chain'][-1]['J']['v'] * p['heavy_output'], spec['chain'][-1]['J']['u'])
         if all_int_J:
             # every inertia written as a python int in one small unit (a parts list in g*cm^2)
             ju = rng.choice(['gcm^2', 'gcm^2', 'gm^2', 'kgcm^2'])
@@ -242,6 +244,12 @@ def gen_scenario(rng, prof=None, force_selflock=None):
     if rng.random() < p['p_time_load']:
         load['S'] = sig(rng.uniform(0.05, 0.8) * T_out, 3)
         load['W'] = sig(2 * math.pi / (dt_si * rng.uniform(5, 40)), 4)
+    if rng.random() < p.get('p_cam_load', 0.15):
+        load['fp'] = rng.choice([1 / (4 * math.pi), 0.1, 0.37, 1 / (2 * math.pi), 1.5])
+        # amplitude limited like the spring term C: the stiffness P*2*pi*fp stays below 0.02 J_eq / dt^2 (gentle dynamics, no
+        # amplification of rounding differences between two writings of the same scenario)
+        load['P'] = sig(min(rng.uniform(0.05, 0.4) * T_out, 0.02 * nums['J_eq'] / dt_si ** 2 / (2 * math.pi * load['fp'])), 3)
+        load['lib_trig'] = rng.random() < 0.75
     if rng.random() < 0.25:
         load['step_t'] = dt_si * (rng.randint(1, max(1, n - 1)) + 0.5)       # half-way between two instants: never a rounding matter
         load['step_A'] = sig(rng.uniform(-2, 2) * T_out, 3)
